@@ -54,6 +54,12 @@ var badSchemaDocs = []string{
 	"apiVersion: policy.networking.k8s.io/v1alpha1\nkind: AdminNetworkPolicy\nmetadata:\n  name: %s\nspec:\n  priority: high\n  subject:\n    namespaces: {}\n",
 	"apiVersion: v1\nkind: Service\nmetadata:\n  name: %s\n  namespace: alpha\nspec:\n  ports: 80\n",
 	"apiVersion: apps/v1\nkind: StatefulSet\nmetadata:\n  name: %s\n  namespace: beta\nspec:\n  template:\n    spec:\n      containers:\n      - name: c\n        ports:\n        - containerPort: http\n",
+	// everything the analysis reads is fine, the defect sits in the part it never looks at (a dump of a live cluster
+	// carries a status in every document): accepted by mistake, these would add a workload, a service, a namespace
+	"apiVersion: apps/v1\nkind: Deployment\nmetadata:\n  name: %s\n  namespace: alpha\n  labels:\n    app: a\nspec:\n  replicas: 1\n  selector:\n    matchLabels:\n      app: a\n  template:\n    metadata:\n      labels:\n        app: a\n    spec:\n      containers:\n      - name: c\n        image: img\nstatus:\n  replicas: three\n",
+	"apiVersion: v1\nkind: Service\nmetadata:\n  name: %s\n  namespace: alpha\nspec:\n  selector:\n    app: a\n  ports:\n  - port: 80\nstatus:\n  loadBalancer: 7\n",
+	"apiVersion: v1\nkind: Namespace\nmetadata:\n  name: %s\nstatus: gone\n",
+	"apiVersion: apps/v1\nkind: DaemonSet\nmetadata:\n  name: %s\n  namespace: beta\nspec:\n  selector:\n    matchLabels:\n      tier: b\n  template:\n    metadata:\n      labels:\n        tier: b\n    spec:\n      containers:\n      - name: c\n        image: img\nstatus:\n  conditions: none\n",
 }
 
 var brokenYAML = []string{
@@ -72,8 +78,12 @@ var brokenJSON = []string{
 	"{'single': 'quotes'}",
 }
 
+// kinds whose typed schema has a status structure (a NetworkPolicy has none: a status there is an unknown field)
+var kindsWithStatus = map[string]bool{"Deployment": true, "ReplicaSet": true, "StatefulSet": true, "DaemonSet": true, "Job": true,
+	"CronJob": true, "ReplicationController": true, "Service": true, "Namespace": true, "Ingress": true}
+
 // brokenCopy keeps the identity of a document and makes its spec fail schema conversion.
-func brokenCopy(text string) string {
+func brokenCopy(text string, inStatus bool) string {
 	var m map[string]interface{}
 	if err := yaml.Unmarshal([]byte(text), &m); err != nil || m == nil {
 		return ""
@@ -84,8 +94,13 @@ func brokenCopy(text string) string {
 	if k, _ := m["kind"].(string); strings.HasSuffix(k, "List") {
 		return ""
 	}
-	m["spec"] = "stale broken copy"
-	delete(m, "status")
+	if k, _ := m["kind"].(string); inStatus && kindsWithStatus[k] {
+		// the part the analysis reads stays as it is; the document still does not convert
+		m["status"] = "stale broken copy"
+	} else {
+		m["spec"] = "stale broken copy"
+		delete(m, "status")
+	}
 	b, err := yaml.Marshal(m)
 	if err != nil {
 		return ""
@@ -181,7 +196,7 @@ func genFaultItems(r *rng, docs []Doc, lay Layout) []faultItem {
 				continue
 			}
 			di := r.intn(len(docs))
-			t := brokenCopy(docs[di].Text)
+			t := brokenCopy(docs[di].Text, r.chance(1, 2))
 			if t == "" {
 				continue
 			}
